@@ -208,13 +208,28 @@ def main():
     slow = "--slow" in args
     fp = file_props()
     jobs = []
+    if "--retest" in args:
+        # re-run the survivors of an earlier sweep (matched by file, line, kind, context) against the current checks
+        want = set()
+        for l in open(args[args.index("--retest") + 1]):
+            r = json.loads(l)
+            if r["verdict"] == "SURVIVED":
+                want.add((r["file"], r["line"], r["kind"], r["ctx"]))
+        for f in FILES:
+            src, points = gen_mutants(os.path.join("/repo", f))
+            for (idx, kind, ln, ctx) in points:
+                if (f, ln, kind, ctx) in want:
+                    jobs.append((f, idx, kind, ln, ctx, fp.get(f, []), slow))
+        files = []
+        mx = len(jobs)
     for f in files:
         src, points = gen_mutants(os.path.join("/repo", f))
         props = fp.get(f, [])
         for (idx, kind, ln, ctx) in points:
             jobs.append((f, idx, kind, ln, ctx, props, slow))
     rng = random.Random(seed)
-    rng.shuffle(jobs)
+    if "--retest" not in args:
+        rng.shuffle(jobs)
     jobs = jobs[:mx]
     print("%d mutation points sampled (of all in %d files)" % (len(jobs), len(files)), flush=True)
     with ThreadPoolExecutor(max_workers=4) as ex, open(out, "a") as fo:
